@@ -83,11 +83,13 @@ func inFocus(prop string, o op) bool {
 		return true
 	case "C05small":
 		if o.Kind == "publish" {
-			return o.Arg == "1s"
+			// two block times: right after the head, and an hour later - coin hours accrue per coin, so outputs of different
+			// size change their fee rank with the time base the publisher uses (it must be the head time)
+			return o.Arg == "1s" || o.Arg == "1h"
 		}
 		if o.Kind == "inject-user" {
 			switch o.Arg {
-			case "pay-G-A", "pay-A-B", "pay-A2-C", "pay-A3-B", "pay-B-A", "pay-G-C-samefee", "merge-A":
+			case "pay-G-A", "pay-A-B", "pay-A2-C", "pay-A3-B", "pay-B-A", "pay-G-C-samefee", "merge-A", "ladder-0", "ladder-1", "ladder-2", "ladder-3", "ladder-4":
 				return true
 			}
 		}
